@@ -13,22 +13,29 @@ from sa.source import AnalysisError
 PROPERTY = "C31"
 AMP = "protocols/amp.py"
 Q = "twisted.protocols.amp"
-TECHNIQUE = "scenario interpretation of BoxDispatcher with modelled Deferreds, plus who-may-write closure"
+TECHNIQUE = "must-precede/dominance/who-may-write on inlined CFGs; scenario interpretation as bounded second layer"
 EXPLANATION = (
-    "BoxDispatcher, BinaryBoxProtocol.connectionLost, AMP.connectionLost, Command._doCommand and the responder wrapper are interpreted "
-    "(whitelisted AST interpreter; Deferred, Failure, fail and maybeDeferred are models written in the checker, transports/locators are recording stubs) on "
-    "scenarios, and the observable OUTCOMES are compared with the property, so helper extraction, guard clauses, renamed temporaries or data-driven "
-    "dispatch do not matter. "
-    "Scenarios: three concurrent calls answered out of order (each probe fires exactly once with its own box), error boxes (declared code, "
-    "UNHANDLED, unknown), a duplicate answer (never a second fire), calls without answer (nothing registered, no ASK), tag injectivity across counter "
-    "values incl. 16/32-bit boundaries, failAllOutgoing and the three connection-loss entry points in every state (switched protocol, key limit "
-    "exceeded, TLS just started) - all pending calls fail once with the reason, later and re-entrant calls (made from a failing call's errback) fail "
-    "at once and send nothing; incoming commands: answer tagged with the question's ASK, declared error codes (also for a subclass of a declared "
-    "error), fatal errors in a QuitBox, undeclared errors as UNKNOWN, unknown commands as UNHANDLED, no reply without ASK; on the caller side unknown "
-    "codes surface as UnknownRemoteError and declared ones through reverseErrors. "
-    "Statically: _outstandingRequests, _failAllReason and _counter are mutated only by the known functions or private helpers all of whose callers "
-    "are allowed. Not decided: real scheduling, the synchronous loop-back case (answer arriving inside sendBox), responders that never answer."
+    'STRUCTURAL (every path, on the view with private helpers inlined or summarised): in _answerReceived/_errorReceived the '
+    'pending Deferred is removed from _outstandingRequests before callback/errback is invoked on it (must-precede; a helper '
+    'that pops on every path counts); failAllOutgoing assigns _failAllReason and replaces _outstandingRequests before the '
+    'first errback call-out (ordering); every statement of _sendBoxCommand that modifies the box, sends it or registers a '
+    "Deferred is dominated by '_failAllReason is None' (temporaries substituted); BinaryBoxProtocol.connectionLost, "
+    'AMP.connectionLost and stopReceivingBoxes reach the next stage on every normal path; _outstandingRequests, '
+    '_failAllReason and _counter are mutated only by the known functions or by private helpers all of whose callers are '
+    'allowed (who-may-write closure). BOUNDED second layer (BoxDispatcher interpreted with modelled '
+    'Deferred/Failure/fail/maybeDeferred on enumerated histories): concurrent calls answered out of order, error boxes, '
+    'duplicate and late answers, loss of the connection inside a result handler, no-answer calls, tag injectivity across '
+    '2^16/2^32, failAllOutgoing and AMP.connectionLost in five protocol states with re-entrant and later calls, replies '
+    '(answer, declared/fatal/undeclared error, unhandled command, no ASK) and error translation on caller and responder '
+    "side. Bounded evidence only: 'answer goes to its own question', tag freshness and the error-code mappings (value-flow "
+    'clauses; the structural rules decide the exactly-once and disconnect orderings). Not decided: real scheduling, the '
+    'synchronous loop-back case, responders that never answer.'
 )
+RULE_KINDS = {
+    "state/who-may-write": "structural", "match/take-before-fire": "structural", "drain/reason-recorded-first": "structural", "drain/table-reset-first": "structural",
+    "send/late-call-refused": "structural", "drain/reaches-fail-all": "structural",
+    "*": "bounded",      # scenario interpretation with modelled Deferreds: a verdict about the enumerated histories
+}
 ASSUMPTIONS = [
     "the Deferred/Failure models follow twisted's documented semantics for callback/errback/addCallbacks/trap/check (exactly-once delivery itself is property C03)",
     "constructors of RemoteAmpError/UnknownRemoteError store their arguments (modelled); methods inherited from classes outside amp.py/basic.py do nothing relevant",
@@ -657,9 +664,177 @@ def check_who_may_write(ctx, mod):
     ctx.floor("state/who-may-write", n, 5)
 
 
+# ---- structural layer (for-all-paths verdicts on the normalised code) --------------------------------------------------
+
+def _views(ctx, mod):
+    from sa.props._lib_d import Inliner
+    known = ["__init__", "_sendBoxCommand", "_answerReceived", "_errorReceived", "failAllOutgoing", "stopReceivingBoxes", "ampBoxReceived", "_commandReceived",
+             "_nextTag", "callRemote", "callRemoteString", "dispatchCommand", "_safeEmit", "unhandledError", "startReceivingBoxes"]
+    return Inliner(mod, ["BoxDispatcher"], known)
+
+
+def _is_table(node) -> bool:
+    return isinstance(node, ast.Attribute) and node.attr == "_outstandingRequests" and isinstance(node.value, ast.Name) and node.value.id == "self"
+
+
+def _detach_nodes(g) -> List[int]:
+    """CFG nodes that remove one entry from self._outstandingRequests (pop(key) / del [...])."""
+    def detaches(x):
+        if isinstance(x, ast.Call) and isinstance(x.func, ast.Attribute) and x.func.attr == "pop" and _is_table(x.func.value) and x.args:
+            return True
+        return isinstance(x, ast.Delete) and any(isinstance(t, ast.Subscript) and _is_table(t.value) for t in x.targets)
+    return g.find(detaches) + g.ids(lambda n: n.kind == "stmt" and isinstance(n.ast, ast.Delete) and detaches(n.ast))
+
+
+def _helper_detaches_on_every_path(ctx, cls_methods, name: str) -> Optional[bool]:
+    h = cls_methods.get(name)
+    if h is None:
+        return None
+    g = ctx.cfg(h)
+    d = _detach_nodes(g)
+    from sa.props._lib_g import must_pass as _mp
+    return bool(d) and _mp(g, [g.entry], d) is None
+
+
+def check_structural(ctx, mod):
+    from sa.astx import call_attr, call_name, walk_local
+    from sa.props._lib_g import expand, must_pass as _mp, single_defs
+    from sa.source import methods
+    cls = ctx.cls(AMP, "BoxDispatcher")
+    ms = methods(cls)
+    inl = _views(ctx, mod)
+    q = Q + ".BoxDispatcher"
+
+    # (1) pop-before-fire: the pending Deferred is detached from the table on every path before callback/errback is invoked on it
+    for fname in ("_answerReceived", "_errorReceived"):
+        f = inl.view(ctx.func(AMP, f"BoxDispatcher.{fname}"))
+        g = ctx.cfg(f)
+        defs = single_defs(f)
+        fires = []
+        for n in g.ids(lambda n: n.ast is not None and n.kind in ("stmt", "test")):
+            for x in walk_local(g.node(n).ast):
+                if isinstance(x, ast.Call) and isinstance(x.func, ast.Attribute) and x.func.attr in ("callback", "errback"):
+                    fires.append((n, x))
+        detach = _detach_nodes(g)
+        decided = 0
+        for n, call in fires:
+            recv = call.func.value
+            origin = expand(recv, defs) if isinstance(recv, ast.Name) else recv
+            from_table = any(_is_table(x) for x in ast.walk(origin))
+            via_helper = [x for x in ast.walk(origin) if isinstance(x, ast.Call) and isinstance(x.func, ast.Attribute) and isinstance(x.func.value, ast.Name)
+                          and x.func.value.id == "self" and x.func.attr in ms and x.func.attr.startswith("_")]
+            cons = f"{q}.{fname} | <pending Deferred detached before it is fired>"
+            if from_table:
+                decided += 1
+                wit = g.must_precede(detach, [n]) if detach else [g.entry]
+                # a pop inside the very expression that is fired (self._outstandingRequests.pop(k).callback(x)) precedes the call by evaluation order
+                inline_pop = any(isinstance(x, ast.Call) and isinstance(x.func, ast.Attribute) and x.func.attr == "pop" and _is_table(x.func.value) for x in ast.walk(call.func.value))
+                ctx.check(inline_pop or (bool(detach) and wit is None), "match/take-before-fire", cons,
+                          "the pending Deferred is fired while still registered in _outstandingRequests: a duplicate answer, or a connection loss inside its callback, fires it a second time",
+                          witness=g.describe(wit) if detach and wit else "no pop/del of _outstandingRequests before the fire")
+            elif via_helper:
+                verdicts = [_helper_detaches_on_every_path(ctx, ms, x.func.attr) for x in via_helper]
+                if any(v is True for v in verdicts):
+                    decided += 1
+                    ctx.ok("match/take-before-fire", cons, f"obtained from {via_helper[0].func.attr}(), which removes the entry on every path before returning it")
+                elif detach and g.must_precede(detach, [n]) is None:
+                    decided += 1
+                    ctx.ok("match/take-before-fire", cons, "a pop/del precedes the fire on every path")
+        if not decided:
+            ctx.note(f"match/take-before-fire: no fire site on a value taken from _outstandingRequests recognised in {fname}; clause left to the bounded rules match/fires-once")
+
+    # (2) failAllOutgoing: the reason is recorded and the table is swapped away before the first errback runs
+    f = inl.view(ctx.func(AMP, "BoxDispatcher.failAllOutgoing"))
+    g = ctx.cfg(f)
+    reason = f.args.args[1].arg if len(f.args.args) > 1 else None
+    callouts = g.find(lambda x: isinstance(x, ast.Call) and call_attr(x) == "errback")
+    rec = g.ids(lambda n: n.kind == "stmt" and isinstance(n.ast, ast.Assign) and any(isinstance(t, ast.Attribute) and t.attr == "_failAllReason" for t in n.ast.targets))
+    swap = g.ids(lambda n: n.kind == "stmt" and isinstance(n.ast, ast.Assign) and any(_is_table(e) for t in n.ast.targets for e in (t.elts if isinstance(t, ast.Tuple) else [t])))
+    cq = q + ".failAllOutgoing"
+    if callouts and rec:
+        wit = g.must_precede(rec, callouts)
+        ctx.check(wit is None, "drain/reason-recorded-first", cq + " | self._failAllReason",
+                  "an errback can run before _failAllReason is recorded: a callRemote made from that errback is sent on the dead connection and never fails", witness=g.describe(wit))
+    else:
+        ctx.note("drain/reason-recorded-first: errback call-outs / the assignment of _failAllReason not recognised in failAllOutgoing; clause left to drain/reentrant-call (bounded)")
+    if callouts and swap:
+        wit = g.must_precede(swap, callouts)
+        ctx.check(wit is None, "drain/table-reset-first", cq + " | self._outstandingRequests",
+                  "an errback can run while the Deferreds are still registered: a late answer or a re-entrant failAllOutgoing fires them a second time", witness=g.describe(wit))
+    elif callouts:
+        ctx.violation("drain/table-reset-first", cq + " | self._outstandingRequests",
+                      "failAllOutgoing never replaces self._outstandingRequests: the failed Deferreds stay registered and a late answer fires them a second time")
+    else:
+        ctx.note("drain/table-reset-first: shape not recognised; clause left to drain/fails-pending (bounded)")
+
+    # (3) _sendBoxCommand: nothing is written to the box, sent or registered once the connection is lost
+    f = inl.view(ctx.func(AMP, "BoxDispatcher._sendBoxCommand"))
+    g = ctx.cfg(f)
+    defs = single_defs(f)
+    params = [a.arg for a in f.args.args]
+    box = params[2] if len(params) > 2 else "box"
+
+    def lost_guard(n) -> bool:
+        for t, lab in g.edge_guards(n):
+            te = expand(g.node(t).ast, defs)
+            txt = src(te)
+            if (txt in ("self._failAllReason is not None", "self._failAllReason") and lab == "F") or (txt == "self._failAllReason is None" and lab == "T"):
+                return True
+        return False
+    touches = g.ids(lambda n: n.kind in ("stmt", "test") and n.ast is not None and (
+        any(isinstance(x, ast.Subscript) and isinstance(x.ctx, ast.Store) and (src(x.value) == box or _is_table(x.value)) for x in walk_local(n.ast)) or
+        any(isinstance(x, ast.Call) and call_name(x) in (f"{box}._sendTo",) for x in walk_local(n.ast))))
+    tests = [t for t in g.ids(lambda n: n.kind == "test") if "self._failAllReason" in src(expand(g.node(t).ast, defs))]
+    cq = q + "._sendBoxCommand"
+    if touches and tests:
+        for n in touches:
+            ctx.check(lost_guard(n), "send/late-call-refused", ctx.construct(cq, g.node(n).ast).replace(src(g.node(n).ast), _role(g.node(n).ast, box)),
+                      "this runs although the connection is already lost (_failAllReason set): the box is modified or sent, or a Deferred is registered that nothing will ever fire",
+                      witness=g.describe(g.path([g.entry], [n])))
+    elif touches:
+        ctx.violation("send/late-call-refused", cq + " | <connection-lost test>", "_sendBoxCommand never tests self._failAllReason: calls made after the connection is lost "
+                      "are sent into the void and their Deferred never fires")
+    else:
+        ctx.note("send/late-call-refused: send/registration sites not recognised in _sendBoxCommand; clause left to drain/late-call-fails (bounded)")
+
+
+def check_structural_drain(ctx, mod):
+    """Every normal path of the three connection-loss entry points reaches the next one (must-pass-through)."""
+    from sa.astx import call_attr, call_name
+    from sa.props._lib_g import must_pass as _mp
+    for qual, pred, what in (
+        ("BinaryBoxProtocol.connectionLost", lambda x: isinstance(x, ast.Call) and call_attr(x) == "stopReceivingBoxes" and len(x.args) == 1, "<box receiver>.stopReceivingBoxes(reason)"),
+        ("AMP.connectionLost", lambda x: isinstance(x, ast.Call) and call_attr(x) == "connectionLost" and (
+            call_name(x) == "BinaryBoxProtocol.connectionLost" or (isinstance(x.func.value, ast.Call) and call_name(x.func.value) == "super")), "BinaryBoxProtocol.connectionLost(self, reason)"),
+        ("BoxDispatcher.stopReceivingBoxes", lambda x: isinstance(x, ast.Call) and call_attr(x) == "failAllOutgoing" and len(x.args) == 1, "self.failAllOutgoing(reason)"),
+    ):
+        f = ctx.func(AMP, qual)
+        g = ctx.cfg(f)
+        sites = g.find(pred)
+        if not sites:
+            ctx.note(f"drain/reaches-fail-all: no call of {what} recognised in {qual}; clause left to drain/fails-pending (bounded)")
+            continue
+        wit = _mp(g, [g.entry], sites)
+        ctx.check(wit is None, "drain/reaches-fail-all", f"{Q}.{qual}", f"{qual} can return without calling {what}: pending callRemote Deferreds never fire after the connection is lost",
+                  witness=g.describe(wit))
+
+
+def _role(st, box) -> str:
+    t = src(st)
+    if "_outstandingRequests" in t:
+        return "<registration of the pending Deferred>"
+    if "._sendTo(" in t:
+        return "<the box is sent>"
+    return "<the box is modified: " + t.split("=")[0].strip() + ">"
+
+
 def check(ctx):
     mod = ctx.mod(AMP)
     consts = module_consts(mod)
+    with ctx.section("structural layer"):
+        check_structural(ctx, mod)
+    with ctx.section("structural drain"):
+        check_structural_drain(ctx, mod)
     with ctx.section("matching"):
         check_matching(ctx, mod, consts)
     with ctx.section("disconnect"):
